@@ -89,3 +89,17 @@ Example rewind_schedule :
               Start 2; W 2; U 2; R 0; Start 3; W 3; U 3; R 0] in
   files s = [3] /\ completed s = [3] /\ load false (files s) = Some 3.
 Proof. vm_compute. repeat split. Qed.
+
+(* operator side, whole sequences: a database that takes DKV checkpoints 1, 2, ... and receives retention
+   notifications, each naming a checkpoint it holds at that moment - however late they arrive (after one, two, ...
+   newer checkpoints were taken) - still holds the newest checkpoint it took.  Tied to the real dkv.DB by the
+   `retain` cases of engine snapstore. *)
+Theorem retain_run_keeps_newest : forall steps,
+  retain_valid [] 1 steps ->
+  (taken 1 steps = 0 /\ retain_run [] 1 steps = []) \/ In (taken 1 steps) (retain_run [] 1 steps).
+Proof. exact retain_run_from_start. Qed.
+Print Assumptions retain_run_keeps_newest.
+
+Example late_retention_sequence :
+  retain_run [] 1 [RCk; RCk; RRt 1; RCk; RRt 2; RCk] = [2; 3; 4] /\ retain_valid [] 1 [RCk; RCk; RRt 1; RCk; RRt 2; RCk].
+Proof. vm_compute. repeat split; auto. Qed.
